@@ -60,7 +60,7 @@ def copy_discipline(F, rep, only_declaration=False, only_generalised=False):
         scratch = core.Report("_", "quick")
         copy_discipline(F, scratch)
         for o in scratch.obs:
-            if o["key"].startswith("expression|Read|variable-type") or o["key"].endswith("|insertions") or \
+            if o["key"].startswith(("expression|Read|variable-type", "environment|")) or o["key"].endswith("|insertions") or \
                     o["key"] == "expression|-|result-of-any-expression":
                 real.obs.append(o)
                 real.sites += 1
@@ -68,14 +68,17 @@ def copy_discipline(F, rep, only_declaration=False, only_generalised=False):
     if only_declaration:
         import core
         rep = core.Report("_", "quick")
+    # the functions that hand out a fresh instance of a type: whatever enters inner_copy from outside
+    copiers = {f_["_path"] for f_ in F.fns_in(TCM) if last(f_["_path"]) != "inner_copy" and
+               any(callee(c_) == TC + "inner_copy" for c_ in nodes(fn_body(f_), "MethodCall"))}
     for fn in F.fns_in(TCM):
         body = fn_body(fn)
         fl = None
         fname = last(fn["_path"])
-        if fname in ("copy", "inner_copy"):
+        if fn["_path"] in copiers or fname == "inner_copy":
             continue
         for c, parents in walk(body):
-            if c.get("k") != "MethodCall" or callee(c) != TC + "copy":
+            if c.get("k") != "MethodCall" or callee(c) not in copiers:
                 continue
             if fl is None:
                 fl = Flow(fn, body)
@@ -97,6 +100,7 @@ def copy_discipline(F, rep, only_declaration=False, only_generalised=False):
                        "called at two different types and any function passed for it is accepted", line_of(c))
                 if g:
                     _generalised_insertions(F, rep, g)
+                _environment_shared(F, rep, callee(c))
                 continue
             if d.startswith("varty:"):
                 # the type of a variable: only declarations named as a type / constructor are generalisable
@@ -164,6 +168,69 @@ def _generalised_guard(F, fl, copy_call, parents):
                         tc.root_field(fl, m["args"][0]) in ("var", "0"):
                     return r["name"]
     return None
+
+
+def _environment_shared(F, rep, copier):
+    """a generalised function's type may mention types that are not its own: the type of a parameter or local of the
+    function it is defined in (`outer :: fn x do inner :: fn -> x end ..`), of a mutable global (`z := []`,
+    `get :: fn -> z end`).  An instance that copies those as well cuts the function loose from the variable it reads:
+    `inner() + 1` no longer says anything about `x`.  So the instantiation enters inner_copy with the surroundings already
+    mapped to themselves, and the surroundings are kept up to date where variables get their one type."""
+    fn = F.fns[copier]
+    body = fn_body(fn)
+    seen_local = None
+    for c in nodes(body, "MethodCall"):
+        if callee(c) == TC + "inner_copy" and len(c["args"]) >= 2:
+            a = peel(c["args"][1])
+            if a.get("k") == "Path" and a.get("res") == "Local":
+                seen_local = a["hid"]
+    seeded_from = None
+    if seen_local is not None:
+        seeds = [c for c in nodes(body, "MethodCall") if c["m"] in ("insert", "extend", "entry") and
+                 peel(c["recv"]).get("hid") == seen_local]
+        if seeds:
+            for f_ in nodes(body, "Field"):
+                if ty_is((f_.get("base_ty") or "").replace("&mut ", "").replace("&", ""), TCM + "TypeChecker") and \
+                        f_["name"] not in ("variables", "types"):
+                    seeded_from = f_["name"]
+    rep.ob("COPY", "expression|Read|variable-type|environment-stays-shared", seeded_from is not None,
+           ("the instance of a generalised function's type is made with the types reachable from `self.%s` mapped to themselves"
+            % seeded_from) if seeded_from else
+           "TypeChecker::%s copies everything reachable from a generalised function's type, including type variables that belong to "
+           "the surroundings: `outer :: fn x do inner :: fn -> x end / a := inner() + 1 end` with `outer(\"s\")` is accepted "
+           "(`\"s\" + 1` at run time), and so is `z := []`, `get :: fn -> z end`, `list.push(z, 1)`, `s: [str] = get()`" % last(copier),
+           fn["sp"])
+    if not seeded_from:
+        return
+    # who keeps the surroundings: parameters enter before the body is checked and leave after it; definitions that are not
+    # generalised enter
+    fexpr = F.fn(TC + "expression")
+    arms = tc.arm_of(F, fexpr, "sylt_compiler::name_resolution::Expression", "Function")
+    ok_params = False
+    for arm, _alt in arms or []:
+        order = []
+        for x in nodes(arm["body"], "MethodCall"):
+            r = peel(x["recv"])
+            if r.get("k") == "Field" and r["name"] == seeded_from and x["m"] in ("extend", "push", "insert"):
+                order.append("enter")
+            elif r.get("k") == "Field" and r["name"] == seeded_from and x["m"] in ("truncate", "pop", "remove", "retain", "split_off", "drain"):
+                order.append("leave")
+            elif callee(x) == TC + "expression_block":
+                order.append("body")
+        ok_params = "enter" in order and "body" in order and order.index("enter") < order.index("body") and \
+            ("leave" not in order or order.index("leave") > order.index("body"))
+    rep.ob("COPY", "environment|parameters-enter-before-the-body", ok_params,
+           "the parameters of a function literal are in `self.%s` while its body is checked" % seeded_from if ok_params else
+           "the Function arm does not put the parameters into `self.%s` before checking the body (or takes them out before): an "
+           "inner function that returns a parameter of the enclosing one is generalised over that parameter's type" % seeded_from,
+           fexpr["sp"])
+    fdef = F.fn(TC + "definition")
+    enters = [x for x in nodes(fn_body(fdef), "MethodCall") if peel(x["recv"]).get("k") == "Field" and
+              peel(x["recv"])["name"] == seeded_from and x["m"] in ("extend", "push", "insert")]
+    rep.ob("COPY", "environment|definitions-enter", bool(enters),
+           "a definition that is not generalised enters `self.%s`" % seeded_from if enters else
+           "definition() never adds a variable to `self.%s`: a mutable variable read by a generalised function is copied with it"
+           % seeded_from, fdef["sp"])
 
 
 def _generalised_insertions(F, rep, setname):
